@@ -67,6 +67,10 @@ def dispatch (st : DState) (line : String) : DState × String :=
     match Driver.Dv.handle rest with
     | some out => (st, out)
     | none => (st, "bad-op")
+  | "Q" :: _ =>
+    -- C18: the model's answer for any batch of concurrent calls on a shared primitive is "every result equals
+    -- the sequential one" (Props/C18 `interleave_eq_sequential`)
+    (st, "seq")
   | "B" :: rest =>
     match Driver.Hp.handle rest with
     | some out => (st, out)
